@@ -165,7 +165,7 @@ def check_schedule(ctx, spec, urls, plan, solo, where, gran="call"):
             break
     if not bad and F.snapshot(ds) != snap:
         ctx.oracle_fail("served dataset changed by concurrent requests", case, "snapshot differs", "unchanged",
-                        size=len(repr(spec)) + 60 * len(urls))
+                        size=150000 + len(repr(spec)) + 60 * len(urls))
         bad = True
     ctx.count(("sched", gran, repr(spec), tuple(urls), tuple(map(tuple, plan))), pre >= 1,
               tag="%s:%s:threads=%d:preemptions=%d" % (where, gran, len(urls), min(pre, 3)),
